@@ -82,7 +82,7 @@ func timerROMs(c *Ctx) []string {
 		filepath.Join(base, "blargg", "instr_timing", "instr_timing.gb"), filepath.Join(base, "blargg", "cpu_instrs", "individual", "02-interrupts.gb"),
 	}
 	// two generated busy programs (they vary IE, write DIV / TIMA / TMA / TAC all the time and poll IF)
-	for i, seed := range []int64{8 * 771, 8*912 + 3} {
+	for i, seed := range []int64{8 * 771, 8*912 + 3, 8*655 + 7} { // the third one ends in STOP: the timer goes on
 		p := filepath.Join(c.Out, fmt.Sprintf("tm-gen-%d.gb", i))
 		os.WriteFile(p, genROM(seed), 0o644)
 		roms = append(roms, p)
